@@ -4966,9 +4966,10 @@ bool RemapCompareLess(FunctionRemap *in1, FunctionRemap *in2) {
     }
   }
 
-  // ok maybe something to do with return strength..
-
-  return false;
+  // Both remaps are equally specific.  Order them by function signature, so
+  // that the result does not depend on the order in which the remaps happen
+  // to be laid out in memory (they arrive here sorted by pointer value).
+  return in1->_function_signature < in2->_function_signature;
 }
 
 /**
